@@ -1,20 +1,17 @@
-from . import search as S
+"""collects the per-property modules checklib/prop_*.py; each defines PROPS = {id: spec}
+
+spec keys:
+  lean_modules : list of Lean modules holding the property theorems (each prints `#print axioms`)
+  theorems     : fully qualified names that must appear in that output
+  extract      : True if the regenerated facts (lean/Vore/Extracted.lean) are a proof input
+  run          : f(ctx, spec) -> None; runs correspondence + failing-input search, calls ctx.violation(...)
+  replay       : optional f(ctx, spec, obj) -> exit code
+  manifest     : dict(text=..., note=..., technique=...)
+  trusted_base, assumptions : lists of strings copied into the evidence
+"""
+import glob, importlib, os
 
 PROPS = {}
-
-
-def run_search(genprop, fields=S.ALL_FIELDS, what="matches differ from the model"):
-    def f(ctx, spec):
-        cases, impl, model, stats = S.gen_and_run(ctx, genprop)
-        mism, counters, samples = S.compare_run(ctx, cases, impl, model, fields, what)
-        ctx.coverage.update(evaluations=counters["evaluations"], distinct_nontrivial=counters["with_matches"],
-                            rule="generated (source, text) pairs; non-trivial = the model reports at least one match; "
-                                 "distinct = distinct (source, text) pairs",
-                            samples=samples, counters=counters, generator=stats,
-                            structural_agreement=(counters["code_drift"] == 0))
-        S.report(ctx, mism)
-    return f
-
-
-for pid in ["C01", "C02", "C03", "C05", "C09", "C13"]:
-    PROPS[pid] = dict(lean_modules=[], theorems=[], run=run_search(pid))
+for path in sorted(glob.glob(os.path.join(os.path.dirname(__file__), "prop_*.py"))):
+    mod = importlib.import_module("checklib." + os.path.basename(path)[:-3])
+    PROPS.update(getattr(mod, "PROPS", {}))
